@@ -457,36 +457,43 @@ def applyStars (env : Env) (ps : List Proj) : Except Err (List Proj) :=
   | .abandon => .ok ps
   | .unknownTable => .error .optimize
 
+/-- steps B–F for one scope whose sources are aliased (`srcs'`) and resolved (`env`, in `references` order) -/
+def buildScope (g : Gen) (env : Env) (srcs' : List Src) (s : Scope) : Except Err Scope := do
+  -- B
+  let projsB ← mapE (qcolProj env) s.projs
+  let whrB ← optE (qcol env []) s.whr
+  let groupB ← mapE (qcol env []) s.group
+  let havingB ← optE (qcolHaving env) s.having
+  let orderB ← mapE (qcol env (namedSelects s.projs)) s.order
+  -- C
+  let pc := expandProjs env [] 0 projsB
+  let whrC := whrB.map (expand env pc.2 .plain .root)
+  let groupC := groupB.map (expand env pc.2 .group .root)
+  let havingC := havingB.map (expand env pc.2 .having .root)
+  -- D
+  let projsD ← applyStars env pc.1
+  if hasStar projsD && !s.outer.isEmpty then .error .unsupported else do
+  -- E
+  let projsE := qualifyOutputs g.colName 0 s.outer projsD
+  -- F
+  let groupF ← mapE (groupPos projsE) groupC
+  let orderF ← mapE (orderPos projsE) orderB
+  let orderF' := if groupF.isEmpty then orderF else orderF.map (orderByAlias projsE)
+  pure { outer := [], srcs := srcs', projs := projsE, whr := whrC, group := groupF,
+         having := havingC, order := orderF' }
+
+/-- step G -/
+def check (names : List String) (s' : Scope) : Except Err Scope :=
+  if validate names s' then .ok s' else .error .optimize
+
 def qualifyScope (g : Gen) (σ : Schema) (outs : List (List String)) (s : Scope) : Except Err Scope :=
   match mkEnv g σ outs s.srcs with
   | none => .error .unsupported
   | some (srcs', env0) =>
-    let env := refOrder env0
-    if hasDup (envNames env) then .error .optimize else do
-    -- B
-    let projsB ← mapE (qcolProj env) s.projs
-    let whrB ← optE (qcol env []) s.whr
-    let groupB ← mapE (qcol env []) s.group
-    let havingB ← optE (qcolHaving env) s.having
-    let orderB ← mapE (qcol env (namedSelects s.projs)) s.order
-    -- C
-    let pc := expandProjs env [] 0 projsB
-    let whrC := whrB.map (expand env pc.2 .plain .root)
-    let groupC := groupB.map (expand env pc.2 .group .root)
-    let havingC := havingB.map (expand env pc.2 .having .root)
-    -- D
-    let projsD ← applyStars env pc.1
-    if hasStar projsD && !s.outer.isEmpty then .error .unsupported else do
-    -- E
-    let projsE := qualifyOutputs g.colName 0 s.outer projsD
-    -- F
-    let groupF ← mapE (groupPos projsE) groupC
-    let orderF ← mapE (orderPos projsE) orderB
-    let orderF' := if groupF.isEmpty then orderF else orderF.map (orderByAlias projsE)
-    let s' : Scope := { outer := [], srcs := srcs', projs := projsE, whr := whrC, group := groupF,
-                        having := havingC, order := orderF' }
-    -- G
-    if validate (envNames env) s' then .ok s' else .error .optimize
+    if hasDup (envNames (refOrder env0)) then .error .optimize
+    else match buildScope g (refOrder env0) srcs' s with
+      | .ok s' => check (envNames (refOrder env0)) s'
+      | .error e => .error e
 
 /-- the whole query: scopes in traversal order, each seeing the output names of the earlier ones -/
 def qualifyFrom (g : Gen) (σ : Schema) : List (List String) → List Scope → Except Err (List Scope)
